@@ -141,7 +141,8 @@ PROPS = {
         "claim": "all sequences (exhaustive up to the shallow depth, state-deduplicated beyond) over a 19-message alphabet (initialize variants, initialized, ping, cancelled, legacy and 2026-07-28 list/call with complete/incomplete/unsupported/invalid metadata, discover, setLevel, subscribe, roots-changed, removed methods) are sent over the in-memory pipe; per message the response class/code, the methods reaching the handler layer (receiving middleware), user-handler invocation counts and session state are compared with the reference gate",
         "note": "message alphabet fixed (one representative per class); histories beyond the stated depth are outside the bound; deduplication key = (InitializeParams version, InitializedParams present, log level)",
         "parts": [
-            {"pkg": "mcp", "mode": "plain", "test": "TestVerifC06", "shards": 1, "gomaxprocs": 16, "time_s": {"quick": 150, "thorough": 1500}},
+            {"pkg": "mcp", "mode": "plain", "test": "TestVerifC06", "shards": 1, "gomaxprocs": 16, "time_s": {"quick": 150, "thorough": 1500}, "scenario_prefix": "wire-"},
+            {"pkg": "mcp", "mode": "plain", "test": "TestVerifC06HTTP", "shards": 1, "gomaxprocs": 16, "time_s": {"quick": 150, "thorough": 1500}, "scenario_prefix": "http-"},
         ],
         "assumptions": ["synctest.Wait() quiescence = the server has finished processing the message"],
     },
